@@ -3,8 +3,11 @@
 D=$1; C=$2; T=${3:-quick}
 cd /repo && git status --short | grep -q . && { echo "REPO DIRTY"; exit 2; }
 git -C /repo apply /verif/$D/patch.diff || { echo "apply failed"; exit 2; }
+# the evidence file of the last run on the UNCHANGED tree is put back afterwards
+cp /verif/evidence/$C.json /tmp/seedrun_ev_$$.json 2>/dev/null
 cd /verif && timeout 3600 bin/check $C --tier $T > /tmp/seedrun_$$.txt 2>&1; rc=$?
 git -C /repo checkout -- .
+[ -f /tmp/seedrun_ev_$$.json ] && mv /tmp/seedrun_ev_$$.json /verif/evidence/$C.json
 echo "$D $C tier=$T exit=$rc $(grep -c '^VIOLATION' /tmp/seedrun_$$.txt) violation lines"
 grep "violation \[" /tmp/seedrun_$$.txt | head -2 | cut -c1-400
 grep "INFRA" /tmp/seedrun_$$.txt | head -2 | cut -c1-300
